@@ -29,6 +29,8 @@ const (
 	eArr          // [a, b, ...]
 	eRange        // a..b
 	eStr          // string literal
+	eSymLit       // integer literal whose value is symbolic (spelled 7001+k, replaced at AST level)
+	eFloat        // float literal (concrete spelling in s, value in f)
 )
 
 type zzExpr struct {
@@ -40,6 +42,14 @@ type zzExpr struct {
 	c    *zzExpr
 	args []*zzExpr
 	s    string
+	f    float64
+}
+
+// zzSymLits holds the values of the symbolic literals of the program being
+// interpreted by the reference interpreter.
+func xSym(k int) *zzExpr { return &zzExpr{kind: eSymLit, k: int64(k)} }
+func xFloat(spelling string, v float64) *zzExpr {
+	return &zzExpr{kind: eFloat, s: spelling, f: v}
 }
 
 func xLit(k int64) *zzExpr             { return &zzExpr{kind: eLit, k: k} }
@@ -86,6 +96,10 @@ func (e *zzExpr) text() string {
 		return e.a.text() + ".." + e.b.text()
 	case eStr:
 		return "\"" + e.s + "\""
+	case eSymLit:
+		return strconv.FormatInt(7001+e.k, 10)
+	case eFloat:
+		return e.s
 	}
 	panic("expr text")
 }
@@ -245,6 +259,7 @@ type zzRef struct {
 	failed  bool // run-time error
 	steps   int
 	depth   int
+	lits    []int64 // values of the symbolic literals
 }
 
 type zzRet struct {
@@ -296,6 +311,10 @@ func (r *zzRef) eval(e *zzExpr) zv {
 		return zBool(false)
 	case eStr:
 		return zStr(e.s)
+	case eSymLit:
+		return zInt(r.lits[e.k])
+	case eFloat:
+		return zFloat(e.f)
 	case eVar:
 		return r.lookup(e.name)
 	case eArr:
